@@ -24,6 +24,14 @@ _SAFE_UNQUOTED = ["a", "b c", "'q r'", '"d e"', "x\\ y", "$VF_A", "${VF_B}", "k=
 _ENV_NAMES = ["VF_A", "VF_B", "VF_LONG_NAME_1", "vf_lower"]
 
 
+_TAME = ["a", "b7", "Zed", "k_1", "0", "mm-2", "x.y", "/p/q", "v=1", "A,B", "n:m", "+1", "%d", "@at"]
+
+
+def tame(g: G) -> str:
+    """needs no shell quoting (shlex.quote(s) == s)"""
+    return g.pick(_TAME)
+
+
 def hostile(g: G, allow_empty=True) -> str:
     n = g.weighted([(0, 2 if allow_empty else 0), (1, 6), (2, 5), (3, 3), (5, 1)])
     return "".join(g.pick(_PIECES) for _ in range(n))
@@ -39,7 +47,7 @@ def _binding(g: G, shell: bool, array: bool = False, allow_value_from: str | Non
             b["separate"] = g.p(0.5)
     # (`separate: false` without a prefix is refused by the reference and not covered by the specification)
     if array and g.p(0.5):
-        b["itemSeparator"] = g.pick([",", " ", ":", "", ";", ", "])
+        b["itemSeparator"] = g.pick([",", " ", ":", ";", ", "])  # ("" is treated as absent by the reference)
     if allow_value_from and g.p(0.25):
         b["valueFrom"] = allow_value_from
     if shell and g.p(0.4):
@@ -50,7 +58,7 @@ def _binding(g: G, shell: bool, array: bool = False, allow_value_from: str | Non
 def gen_tool(g: G):
     shell = g.p(0.3)
     use_stdin = g.p(0.25)
-    env_names = [n for n in _ENV_NAMES if g.p(0.35)]
+    env_names = [n for n in _ENV_NAMES if g.p(0.25)]
     base = [PYTHON, DUMPTOOL]
     if use_stdin:
         base.append("--stdin")
@@ -89,8 +97,11 @@ def gen_tool(g: G):
             t = {"type": "enum", "symbols": ["alpha", "be-ta", "g"]}
             val = g.pick(["alpha", "be-ta", "g"])
         elif kind == "string[]":
+            # values of array inputs bound through an outer inputBinding are never shell-quoted by StreamFlow
+            # (known finding C30:composite-binding-not-shell-quoted): hostile items in ~1 array of 4 only
             t = {"type": "array", "items": "string"}
-            val = [hostile(g) for _ in range(g.weighted([(0, 2), (1, 3), (2, 4), (3, 2), (5, 1)]))]
+            mk = hostile if g.p(0.25) else tame
+            val = [mk(g) for _ in range(g.weighted([(0, 2), (1, 3), (2, 4), (3, 2), (5, 1)]))]
         elif kind == "int[]":
             t = {"type": "array", "items": "int"}
             val = [g.i(-3, 99) for _ in range(g.i(0, 4))]
@@ -100,7 +111,8 @@ def gen_tool(g: G):
         elif kind == "string[]-inner":
             # binding on the array schema itself: applied to every item
             t = {"type": "array", "items": "string", "inputBinding": _binding(g, shell) | {"prefix": g.pick(["-i", "--item", "-I="])}}
-            val = [hostile(g) for _ in range(g.i(0, 3))]
+            mk = hostile if g.p(0.5) else tame
+            val = [mk(g) for _ in range(g.i(0, 3))]
         else:
             fields = {}
             val = {}
@@ -120,11 +132,17 @@ def gen_tool(g: G):
             if kind == "record":
                 if g.p(0.5):
                     decl["inputBinding"] = {k2: v2 for k2, v2 in _binding(g, shell).items() if k2 in ("position", "prefix")}
+                    if decl["inputBinding"].get("prefix") in ("--with space", "--q'", "-é") and g.p(0.75):
+                        decl["inputBinding"]["prefix"] = "--rec"
             elif kind == "string[]-inner":
                 if g.p(0.4):
                     decl["inputBinding"] = {"position": g.i(0, 4)}
             else:
                 decl["inputBinding"] = _binding(g, shell, array=kind.endswith("[]"), allow_value_from=vf)
+                if kind.endswith("[]") and decl["inputBinding"].get("prefix") in ("--with space", "--q'", "-é") and g.p(0.75):
+                    decl["inputBinding"]["prefix"] = "--arr"
+                if kind.endswith("[]") and decl["inputBinding"].get("itemSeparator") in (" ", ";", ", ") and g.p(0.75):
+                    decl["inputBinding"]["itemSeparator"] = ","
                 if shell and decl["inputBinding"].get("shellQuote") is False:
                     unquoted_names.add(name)
                     # an unquoted value is shell syntax: keep it to forms whose meaning is the same in any POSIX sh
@@ -169,7 +187,7 @@ def gen_tool(g: G):
         env_def = {}
         # values that need shell quoting (`$`, backtick, `"`, backslash) hit DESIGN F4c: keep them to ~1 tool in 8
         # so that the rest of the search is not masked by that finding
-        env_hostile = g.p(0.3)
+        env_hostile = g.p(0.2)
         for n in env_names:
             form = g.i(0, 3) if env_hostile else g.i(1, 2)
             if form == 0:
